@@ -277,14 +277,27 @@ def install_read():
     from tsv.model.align import only_closers_inserted
     _SIG = _re.compile(r'\\(?:def|textbf|section|label)(?![A-Za-z*])')
 
-    def conserved(what, consumed, produced):
+    def _env_names(objs, acc, depth=0):
+        # names of the environment nodes below `objs` (a name may itself
+        # contain braces: `\begin{{}}`), for the closers-only alignment
+        from TexSoup.data import TexNamedEnv, TexExpr
+        for o in objs:
+            if isinstance(o, TexNamedEnv):
+                acc.add(str(o.name))
+            if isinstance(o, TexExpr) and depth < 60:
+                for a in getattr(o, 'args', ()):
+                    _env_names(getattr(a, '_contents', ()), acc, depth + 1)
+                _env_names(getattr(o, '_contents', ()), acc, depth + 1)
+        return acc
+
+    def conserved(what, consumed, produced, nodes=()):
         if CTX.probes_light or len(consumed) > 400 or _SIG.search(consumed) \
                 or '\x00' in consumed or '\x7f' in consumed:
             return
         CTX.counters['probe:conservation'] = CTX.counters.get('probe:conservation', 0) + 1
         if consumed == produced:
             return
-        names = set(_re.findall(r'\\begin\{([^{}]*)\}', produced))
+        names = set(_re.findall(r'\\begin\{([^{}]*)\}', produced)) | _env_names(nodes, set())
         why = only_closers_inserted(consumed, produced, names)
         if why and _re.search(r'\\begin\s*[\[{]\s|\\begin\s*\[|\s\}', consumed):
             return          # known normalisations of environment names (D11, D15)
@@ -299,7 +312,7 @@ def install_read():
         p0 = src.position
         r = orig_arg(src, c, *a, **k)
         try:
-            conserved('read_arg', str(c) + _join(_q(src)[p0:src.position]), str(r))
+            conserved('read_arg', str(c) + _join(_q(src)[p0:src.position]), str(r), (r,))
         except Exception as e:
             violation('read', 'conservation contract raised %r' % e)
         return r
@@ -312,7 +325,7 @@ def install_read():
         p0 = src.position
         r = orig_item(src, *a, **k)
         try:
-            conserved('read_item', _join(_q(src)[p0:src.position]), ''.join(map(str, r)))
+            conserved('read_item', _join(_q(src)[p0:src.position]), ''.join(map(str, r)), r)
         except Exception as e:
             violation('read', 'conservation contract raised %r' % e)
         return r
